@@ -1045,8 +1045,10 @@ impl<K: AsRef<Key>> ServerSequence<K> {
                 &variables,
             )
         };
-        self.context.apply_signature(mac.as_ref());
+        // The running context continues with the MAC as transmitted, i.e.,
+        // possibly truncated.
         let mac = self.key().signature_slice(&mac);
+        self.context.apply_signature(mac);
         self.key().complete_message(message, &variables, mac)
     }
 
